@@ -454,6 +454,13 @@ func (c17) Gen(rng *rand.Rand, tier string, i int) *sim.Scenario {
 		t := mustParse(bareTarget(sc.Calls[0].Target))
 		sc.DNS = append(sc.DNS, sim.DNSPlan{Addr: dnsKey(t), Script: []string{"names:1"}})
 	}
+	if crng := rand.New(rand.NewPCG(uint64(i), 17)); chance(crng, 0.12) {
+		// the caller's context ends before, during or after the runs (a deadline shorter than the
+		// request, a client that went away): if a document still comes back, it is redacted like any other
+		c := &sc.Calls[0]
+		span := c.TimeoutMs*1000 + 400000
+		c.CancelAtUs = int64(pick(crng, 1, between(crng, 1, 3000), between(crng, 1, span), between(crng, 1, span)))
+	}
 	return sc
 }
 
@@ -508,6 +515,11 @@ func (c17) Check(out *sim.Outcome, ri *RunInfo) []Violation {
 		return vs
 	}
 	fct := facts("entry", c.Entry, "protocol", c.Protocol, "skip", fmt.Sprint(c.SkipPrivate))
+	cancelled := cs.CancelledAt > 0
+	if cancelled {
+		// a document handed to a caller who had cancelled is a document all the same
+		ri.probe("document-after-cancellation")
+	}
 	// names the resolver returned, per address key
 	resolved := map[string][][]string{}
 	for _, d := range out.W.DNSCalls() {
@@ -597,6 +609,9 @@ func (c17) Check(out *sim.Outcome, ri *RunInfo) []Violation {
 						if fmt.Sprint(names) == fmt.Sprint(h.ReverseDNS) || (len(names) == 0 && len(h.ReverseDNS) == 0) {
 							okNames = true
 						}
+					}
+					if cancelled && len(h.ReverseDNS) == 0 {
+						okNames = true // the caller left: what enrichment still did is C18's and C08's business
 					}
 					if !okNames {
 						return fmt.Sprintf("public-altered:ttl %d (%s) carries names %v, resolver returned %v for that address", h.TTL, x.addr, h.ReverseDNS, resolved[dnsKey(x.addr)])
